@@ -32,14 +32,19 @@ type scenario struct {
 	nOwn    int // goroutines with a client (connection) of their own
 	nShared int // goroutines sharing one client after its first successful request
 	opsPer  int
-	profile int // 0 mixed, 1 add-heavy, 2 delete-heavy, 3 dir-heavy, 4 read-heavy
-	preload int // sequential operations before the concurrent phase
-	cuts    int // connection cuts (kinds cut, reset)
+	profile int  // 0 mixed, 1 add-heavy, 2 delete-heavy, 3 dir-heavy, 4 read-heavy
+	preload int  // sequential operations before the concurrent phase
+	cuts    int  // connection cuts (kinds cut, reset)
+	traced  bool // record the protocol trace with the hook and have the Lean acceptor validate it
 }
 
 func (s *scenario) describe() string {
-	return fmt.Sprintf("%s/seed=%d/procs=%d/own=%d/shared=%d/ops=%d/profile=%d/pre=%d/cuts=%d",
+	d := fmt.Sprintf("%s/seed=%d/procs=%d/own=%d/shared=%d/ops=%d/profile=%d/pre=%d/cuts=%d",
 		s.kind, s.seed, s.procs, s.nOwn, s.nShared, s.opsPer, s.profile, s.preload, s.cuts)
+	if s.traced {
+		d += "/traced"
+	}
+	return d
 }
 
 func genScenario(r *common.Rand, kind string, seed uint64) *scenario {
@@ -406,6 +411,8 @@ type history struct {
 	hang     string
 	setup    string // non-empty: the run could not be set up (harness problem, not a property failure)
 	slowStop bool   // daemon.Serve had not returned 30 s after the stop signal
+	traced   bool
+	trace    []rpc.VerifEntry // traced runs: the protocol trace recorded by the hook
 }
 
 var runCounter atomic.Int64
@@ -450,6 +457,12 @@ func runScenario(root string, sc *scenario) *history {
 		}
 	}
 	defer stop()
+	if sc.traced {
+		// before the first client exists: every connection is dialled inside the trace
+		h.traced = true
+		rpc.VerifTraceStart()
+		defer rpc.VerifTraceStop()
+	}
 
 	e := &env{sc: sc}
 	r := common.NewRand(sc.seed)
@@ -554,6 +567,10 @@ func runScenario(root string, sc *scenario) *history {
 		e.doOp(keeper, []string{"nseq"})
 		e.doOp(keeper, []string{"list", "0", "-1"})
 		e.doOp(keeper, []string{"dirs", "-"})
+		if sc.traced {
+			// before the clients are closed (Close is ResetConn, outside the property's quantifier)
+			h.trace = rpc.VerifTraceStop()
+		}
 		for _, c := range closers {
 			c.Close()
 		}
